@@ -15,8 +15,7 @@ func init() {
 // C16: CacheHandler (the real SimpleHandler loop) replies completely and in
 // request order. Oracle: a second real EventCache driven directly.
 func vpH_C16_cache() {
-	capacity := vpInt("cap")
-	vpAssume(capacity >= 1)
+	capacity := vpCapacity(1)
 	h := NewCacheHandler(capacity)
 	shadow := NewEventCache(capacity)
 	k := vpSteps(2, 3)
@@ -108,8 +107,7 @@ func vpH_C16_dump() {
 		*(v.(*[]*Event)) = out
 		return nil
 	})
-	capacity := vpInt("cap")
-	vpAssume(capacity >= 1)
+	capacity := vpCapacity(1)
 	a := NewCacheHandler(capacity)
 	n := vpHistSteps()
 	hist := vpNewHist(n, true, false)
